@@ -38,9 +38,10 @@ func init() {
 			"Every location meets the 4 primary configurations (RelativeFileSystemLibrary{abs RootDir}, FSLibrary over MapFS, os.DirFS, os.Root) in all 7 contexts (top level, 3 loader files, 2-level loader, loader via file link, loader via dir link) through LoadSource; the other 10 configurations (6 more RootDir spellings, symlinked FS roots, recording wrappers) and the interpreter entry points (LoadFile | LoadFileContext | (load-file), nested through loader files) see a hash-selected 2/7 (thorough 4/7) of the (location, configuration, context) triples. " +
 			"Interpreter loads of a loader file spell the top-level request differently from its true location in half of the loads ('.' component, doubled separator, cwd-relative instead of absolute and vice versa). " +
 			"Hop contexts (interpreter only; one hash-selected hop per (location, configuration) at rate 3/7, thorough 5/7): a hop file in one loader directory is loaded by LoadFile | LoadFileContext | (load-file) and, while it executes, loads a loader file of another (or the same) directory by a RELATIVE request ('sub/ldr.lisp', '../ldr.lisp', unclean, through a directory or file link, the hop file itself reached through a directory link) either through a host Go builtin calling env.LoadFile | env.LoadFileContext or through its own (load-file); the loader file then loads the location under test, which must resolve against the loader file's directory. " +
-			"An unconfined RelativeFileSystemLibrary{} is exercised in the loader and hop contexts for the relative-resolution clause only. " +
+			"Sequence contexts (interpreter only; one hash-selected context per (location, configuration) at rate 2/7, thorough 4/7): a sequence file in a loader directory hands a LIST of locations to a builtin that calls load-file (or a host Go include builtin calling env.LoadFile | env.LoadFileContext) back once per element - shapes map 'list | map 'vector | select | reject | map with the include builtin | foldl with the include builtin | foldl over a lambda | funcall in a dotimes | apply in a mapped lambda | consecutive top-level forms - where the earlier elements are marker files of OTHER directories (alone, in pairs, mixed with a file of the same directory) and the last element is the location under test, or the relative request reaching a loader file of another (or the same) directory which then loads the location under test; the later loads must still resolve against the sequence file's directory, and each of them must reach the library with the sequence file's true location as loading context. " +
+			"An unconfined RelativeFileSystemLibrary{} is exercised in the loader, hop and sequence contexts for the relative-resolution clause only. " +
 			"A recording wrapper around the interpreter's library observes (loading context, request, true location) of every library call: the context of each nested call must be the true location the library returned for the file doing the loading. " +
-			"Driver: the real `elps run [--root-dir]` binary over ~600 (thorough 4000) locations x 5 invocations, and one strace'd worker (no successful open of an outside file between the sentinels of a load). " +
+			"Driver: the real `elps run [--root-dir]` binary over ~600 (thorough 4000) locations x 7 invocations (two of them a file loading every location as the last element of (map 'list load-file '(file-of-another-directory LOCATION))), and one strace'd worker (no successful open of an outside file between the sentinels of a load). " +
 			"A coverage key is lib|rootspec|context|entry|location-shape|outcome where location-shape = (form flags, #components bucket, '..' present, links followed: kind x position x inside/outside, model errno, final inside/outside, for both readings when they differ); loads whose location is a plain miss (ENOENT, no link, no '..') are counted as trivial and give no key.",
 		Assumptions: []string{
 			"the kernel's path resolution and symlink creation behave as POSIX specifies (cross-checked per case: every location is also opened with os.ReadFile and compared with the model; a mismatch makes the run inconclusive)",
@@ -81,13 +82,14 @@ type c20Tier struct {
 	nrand       int
 	rate        int // non-primary (configuration, context) pairs per location: rate/7
 	hopRate     int // hop contexts: one per (location, interpreter configuration) at hopRate/7
+	seqRate     int // sequence contexts: one per (location, interpreter configuration) at seqRate/7
 }
 
 func c20TierOf(tier string) c20Tier {
 	if tier == "thorough" {
-		return c20Tier{layouts: 32, chunks: 96, depth: 3, deepLayouts: 6, nrand: 6000, rate: 4, hopRate: 5}
+		return c20Tier{layouts: 32, chunks: 96, depth: 3, deepLayouts: 6, nrand: 6000, rate: 4, hopRate: 5, seqRate: 4}
 	}
-	return c20Tier{layouts: 8, chunks: 48, depth: 3, deepLayouts: 0, nrand: 1500, rate: 2, hopRate: 3}
+	return c20Tier{layouts: 8, chunks: 48, depth: 3, deepLayouts: 0, nrand: 1500, rate: 2, hopRate: 3, seqRate: 2}
 }
 
 func c20Cases(tier string) int {
@@ -167,6 +169,11 @@ type c20LocState struct {
 	hopReq   string
 	hopEntry string // LoadFile | LoadFileContext (called by a host builtin) | load-file (the hop file's own call)
 	hopArmed bool
+	// a sequence: the running sequence file loads these locations in a row
+	// through callbacks of a builtin (once); host include callbacks use seqEntry
+	seq      []string
+	seqArmed bool
+	seqEntry string // LoadFile | LoadFileContext
 }
 
 type c20Builtin struct {
@@ -277,6 +284,45 @@ func (lb *c20Lib) runtime() *rt.R {
 			return e.LoadFileContext(context.Background(), st.hopReq)
 		}
 		return e.LoadFile(st.hopReq)
+	}})
+	// The sequence builtins: a sequence file asks for the list of locations it
+	// is to load (or for the next one of them) and hands them to a builtin that
+	// calls load-file - or c20-include, a host Go builtin calling a LoadFile
+	// entry point of the environment it was handed - back once per element.
+	r.Env.AddBuiltins(true, c20Builtin{"c20-seq", lisp.Formals(), func(e *lisp.LEnv, a *lisp.LVal) *lisp.LVal {
+		if !st.seqArmed {
+			return lisp.QExpr([]*lisp.LVal{lisp.String(sandbox.Sentinel)})
+		}
+		st.seqArmed = false
+		cells := make([]*lisp.LVal, len(st.seq))
+		for i, x := range st.seq {
+			cells[i] = lisp.String(x)
+		}
+		return lisp.QExpr(cells)
+	}})
+	r.Env.AddBuiltins(true, c20Builtin{"c20-seq-next", lisp.Formals(), func(e *lisp.LEnv, a *lisp.LVal) *lisp.LVal {
+		if !st.seqArmed || len(st.seq) == 0 {
+			return lisp.String(sandbox.Sentinel)
+		}
+		x := st.seq[0]
+		st.seq = st.seq[1:]
+		st.seqArmed = len(st.seq) > 0
+		return lisp.String(x)
+	}})
+	include := func(e *lisp.LEnv, loc *lisp.LVal) *lisp.LVal {
+		if loc.Type != lisp.LString {
+			return e.Errorf("c20-include: not a string: %v", loc.Type)
+		}
+		if st.seqEntry == "LoadFileContext" {
+			return e.LoadFileContext(context.Background(), loc.Str)
+		}
+		return e.LoadFile(loc.Str)
+	}
+	r.Env.AddBuiltins(true, c20Builtin{"c20-include", lisp.Formals("loc"), func(e *lisp.LEnv, a *lisp.LVal) *lisp.LVal {
+		return include(e, a.Cells[0])
+	}})
+	r.Env.AddBuiltins(true, c20Builtin{"c20-include-acc", lisp.Formals("acc", "loc"), func(e *lisp.LEnv, a *lisp.LVal) *lisp.LVal {
+		return include(e, a.Cells[1])
 	}})
 	if rc := r.Env.InPackage(lisp.String(lisp.DefaultUserPackage)); !rc.IsNil() {
 		panic(rc.String())
@@ -704,6 +750,17 @@ func c20Run(w *fw.W, idx int) {
 					ck.viaLisp(lb, hp, loc, c20Oracle(l, lb, hp, loc), int(h/7/64))
 				}
 			}
+			// Sequence contexts (interpreter only): the loading file loads several
+			// locations in a row through callbacks of a builtin, files of other
+			// directories first.  One hash-selected context per (location,
+			// configuration), taken at rate seqRate/7.
+			if lb.lispToo && len(l.Seqs) > 0 {
+				h := fw.HashString("seq|" + loc + "|" + lb.label)
+				if int(h%7) < tp.seqRate {
+					sq := &l.Seqs[int(h/7)%len(l.Seqs)]
+					ck.viaLisp(lb, sq, loc, c20Oracle(l, lb, sq, loc), int(h/7/1024))
+				}
+			}
 		}
 	}
 }
@@ -779,8 +836,15 @@ func (ck *c20Checker) describe(lb *c20Lib, ld *sandbox.Loader, entry, loc string
 	} else {
 		fmt.Fprintf(&sb, " RootDir=%q", lb.lib.(*lisp.RelativeFileSystemLibrary).RootDir)
 	}
-	if ld != nil && ld.HopReq != "" {
+	if ld != nil && ld.HopReq != "" && ld.SeqShape == "" {
 		ctx += fmt.Sprintf("\n           hop: %s is loaded first and, while it executes, loads the request %q (-> %s), which performs the nested load", ld.Spelled, ld.HopReq, ld.InnerSpelled)
+	}
+	if ld != nil && ld.SeqShape != "" {
+		last := "the location under test"
+		if ld.HopReq != "" {
+			last = fmt.Sprintf("the request %q (-> %s, which performs the nested load of the location under test)", ld.HopReq, ld.InnerSpelled)
+		}
+		ctx += fmt.Sprintf("\n           sequence (%s): %s loads, in this order and each relative to its own directory, %q and then %s", ld.SeqShape, ld.Spelled, ld.SeqPre, last)
 	}
 	fmt.Fprintf(&sb, "\ncontext  : %s\nentry    : %s\nlocation : %q\njoined   : %q\n", ctx, entry, loc, ex.full)
 	rd := func(name string, r fsmodel.Res) {
@@ -1013,16 +1077,37 @@ func (ck *c20Checker) viaLisp(lb *c20Lib, ld *sandbox.Loader, loc string, ex c20
 	r := lb.runtime()
 	st := lb.st
 	st.loc, st.armed = loc, true
-	st.hopArmed = false
+	st.hopArmed, st.seqArmed = false, false
 	ck.keySuffix = ""
 	defer func() { ck.keySuffix = "" }()
 	target := loc
-	respell, hopEntry := "", ""
+	respell, hopEntry, seqLabel, seqBy := "", "", "", ""
 	var chain []string
 	if ld != nil {
 		target, respell = c20Respell(ck.l, lb, ld, ck.spell(lb, ld.Spelled), fw.HashString("respell|"+loc+"|"+lb.label+"|"+ld.Label))
 		chain = ld.Chain
-		if ld.HopReq != "" {
+		switch {
+		case ld.SeqShape != "":
+			// a sequence file: the earlier loads, then the location under test
+			// (the sequence file is the loading file) or the request reaching
+			// the loader file (which gets the location under test as before)
+			st.seq = append(append(st.seq[:0], ld.SeqPre...), loc)
+			st.armed = false
+			seqLabel = "seq:" + ld.SeqShape
+			if ld.HopReq != "" {
+				st.seq[len(st.seq)-1] = ld.HopReq
+				st.armed = true
+				seqLabel = "seqhop:" + ld.SeqShape
+			}
+			st.seqArmed, st.seqEntry, seqBy = true, c20HopEntries[(flavour/3)%2], "load-file"
+			for _, sh := range sandbox.SeqShapes {
+				if sh.Name == ld.SeqShape && sh.Include {
+					seqBy = st.seqEntry
+					seqLabel += ":" + seqBy
+				}
+			}
+			ck.keySuffix = "@" + seqLabel
+		case ld.HopReq != "":
 			hopEntry = c20HopEntries[(flavour/3)%3]
 			st.hopReq, st.hopEntry, st.hopArmed = ld.HopReq, hopEntry, true
 			ck.keySuffix = "@hop:" + hopEntry
@@ -1054,10 +1139,20 @@ func (ck *c20Checker) viaLisp(lb *c20Lib, ld *sandbox.Loader, loc string, ex c20
 		loadedBy = append(loadedBy, hopEntry)
 		ck.rec.Count("loads_via_hop", 1)
 	}
+	nseq := 0
+	if seqLabel != "" {
+		entry += "+" + seqLabel
+		nseq = len(ld.SeqPre) + 1
+		for i := 0; i < nseq; i++ {
+			loadedBy = append(loadedBy, seqBy)
+		}
+		ck.rec.Count("loads_via_sequence", 1)
+		ck.rec.Count("loads_via_sequence:"+ld.SeqShape, 1)
+	}
 	if ld != nil {
 		entry += "+nested"
 	}
-	ck.judgeContexts(lb, ld, entry, loc, ex, loadedBy)
+	ck.judgeContexts(lb, ld, entry, loc, ex, loadedBy, nseq)
 	ck.rec.Eval(1)
 	ck.rec.Count("loads_via_interpreter", 1)
 	ck.rec.SetAdd("entry_points", entry)
@@ -1123,7 +1218,7 @@ func (ck *c20Checker) viaLisp(lb *c20Lib, ld *sandbox.Loader, loc string, ex c20
 		ck.report(lb.family+":wrong-file-inside-root", fmt.Sprintf("%s %s: %q evaluated %s, expected %s", lb.label, entry, loc, rest[0].Path(), ex.mustServe.Path()),
 			func() string { return ck.describe(lb, ld, entry, loc, ex) })
 	}
-	if ok && !tr.IsErr && strings.HasPrefix(rest[0].Content, "(verif:probe '"+rest[0].Marker+") \"") && tr.Value != `"`+rest[0].Marker+`"` {
+	if ok && !tr.IsErr && seqLabel == "" && strings.HasPrefix(rest[0].Content, "(verif:probe '"+rest[0].Marker+") \"") && tr.Value != `"`+rest[0].Marker+`"` {
 		ck.rec.Count("value_not_marker", 1)
 	}
 	out := "served-in"
@@ -1150,20 +1245,33 @@ func (ck *c20Checker) viaLisp(lb *c20Lib, ld *sandbox.Loader, loc string, ex c20
 // the caller spelled it - makes relative locations resolve against a directory
 // that is not the loading file's.  Key: <family>:loading-context-not-trueloc:<entry
 // point that loaded the loading file>.
-func (ck *c20Checker) judgeContexts(lb *c20Lib, ld *sandbox.Loader, entry, loc string, ex c20Expect, loadedBy []string) {
+//
+// In a sequence context the file served by call 0 makes the next nseq calls
+// itself (the earlier loads are plain marker files, which load nothing), so
+// the file doing the i-th load is the file call 0 served for 1 <= i <= nseq,
+// and the file call i-1 served beyond that.  A later call of the sequence
+// reaching the library with the context of a file loaded earlier in the
+// sequence has the key <family>:loading-context-not-trueloc:later-in-sequence@seq:<shape>.
+func (ck *c20Checker) judgeContexts(lb *c20Lib, ld *sandbox.Loader, entry, loc string, ex c20Expect, loadedBy []string, nseq int) {
 	calls := lb.recl.calls
 	suffix := ck.keySuffix
-	ck.keySuffix = "" // the key names the entry point itself
 	defer func() { ck.keySuffix = suffix }()
 	for i := 1; i < len(calls); i++ {
-		prev := calls[i-1]
-		if !prev.ok {
+		ck.keySuffix = "" // the key names the entry point itself
+		pi := i - 1
+		if i >= 2 && i <= nseq {
+			pi = 0
+			ck.keySuffix = suffix
+			ck.rec.Count("loading_contexts_checked_later_in_sequence", 1)
+		}
+		prev := calls[pi]
+		if !calls[i-1].ok || !prev.ok {
 			ck.rec.Count("library_call_after_failed_call", 1)
 			return
 		}
 		by := "load-file"
-		if i-1 < len(loadedBy) {
-			by = loadedBy[i-1]
+		if pi < len(loadedBy) {
+			by = loadedBy[pi]
 		}
 		ck.rec.Count("loading_contexts_checked", 1)
 		if prev.req != prev.trueloc {
@@ -1173,8 +1281,18 @@ func (ck *c20Checker) judgeContexts(lb *c20Lib, ld *sandbox.Loader, entry, loc s
 		if calls[i].ctxLoc == prev.trueloc {
 			continue
 		}
-		ck.report(lb.family+":loading-context-not-trueloc:"+by,
-			fmt.Sprintf("%s %s: the file loaded through %s by request %q has the true location %q, but the load it then made (%q) reached the library with the loading context %q", lb.label, entry, by, prev.req, prev.trueloc, calls[i].req, calls[i].ctxLoc),
+		nth := "the load it then made"
+		if pi != i-1 {
+			nth = fmt.Sprintf("load #%d of the sequence it then made", i)
+		}
+		key := lb.family + ":loading-context-not-trueloc:" + by
+		if pi != i-1 {
+			// the class of the input is the sequence shape (key suffix), not the
+			// entry point that loaded the sequence file
+			key = lb.family + ":loading-context-not-trueloc:later-in-sequence"
+		}
+		ck.report(key,
+			fmt.Sprintf("%s %s: the file loaded through %s by request %q has the true location %q, but %s (%q) reached the library with the loading context %q", lb.label, entry, by, prev.req, prev.trueloc, nth, calls[i].req, calls[i].ctxLoc),
 			func() string {
 				var sb strings.Builder
 				sb.WriteString(ck.describe(lb, ld, entry, loc, ex))
